@@ -1,4 +1,5 @@
 import BornoModel.Eval
+import BornoModel.Cli
 import BornoModel.Parser
 import BornoModel.Props.C10
 import BornoModel.Lemmas.LexInsert
@@ -208,5 +209,20 @@ example : ParenSs
     [.whileS (.binary (.grouping (.ident "i".toList 1) 1) .LESS 1 (.grouping (.literal (.num (F64.ofNat 3)) 1) 1))
       (.block [.print (.grouping (.ident "i".toList 1) 1)])] :=
   .cons (.whileS (.binary _ _ (.wrap 1 (.refl _)) (.wrap 1 (.refl _))) (.block (.cons (.print (.wrap 1 (.refl _))) .nil))) .nil
+
+open Cli in
+/-- (e) at the level of source texts and of everything `run` reports: if two texts pass the front end without a
+    diagnostic and the tree of the second is the tree of the first with parentheses inserted (anywhere but inside
+    function bodies), then from some step budget on `run` gives the same stdout, diagnostics, flags, unread input and
+    event count for both -/
+theorem redundant_parentheses_run (P : Platform) (src src' : List Char) (prog prog' : List Stmt)
+    (h1 : (frontEnd P.lm src).abnormal = none ∧ (frontEnd P.lm src).diags = [] ∧ (frontEnd P.lm src).prog = some prog)
+    (h2 : (frontEnd P.lm src').abnormal = none ∧ (frontEnd P.lm src').diags = [] ∧ (frontEnd P.lm src').prog = some prog')
+    (h : ParenSs prog prog') (repl : Bool) (input : List Char) :
+    ∃ F0, ∀ F, F0 ≤ F → run P F src repl input = run P F src' repl input := by
+  obtain ⟨F0, h0⟩ := interpret_paren P h repl input
+  refine ⟨F0, fun F hF => ?_⟩
+  unfold run
+  simp only [h1.1, h1.2.1, h1.2.2, h2.1, h2.2.1, h2.2.2, List.isEmpty_nil, Bool.not_true, Bool.false_eq_true, if_false, h0 F hF]
 
 end Borno.Props.C18
